@@ -1,0 +1,30 @@
+//go:build !verif
+
+package go_clipper2
+
+// No-op counterparts of verif_hooks.go: with the "verif" tag off every hook
+// call site compiles to nothing.
+
+type verifState struct{}
+
+func (v *verifState) tick(string)                                       {}
+func (v *verifState) resetTicks()                                       {}
+func (v *verifState) count(string)                                      {}
+func (v *verifState) skipJoin() bool                                    { return false }
+func (v *verifState) skipSplitRepair() bool                             { return false }
+func (v *verifState) joinEvent(string, *Active, *Active, Point64, bool) {}
+func (v *verifState) opEvent(string, *OutPt, float64, float64)          {}
+
+type verifTicker struct{}
+
+func (t *verifTicker) tick(string) {}
+
+type verifOffsetState struct{}
+
+func (v *verifOffsetState) capEvent(*ClipperOffset, Path64, int, float64) {}
+func (v *verifOffsetState) groupEvent(*ClipperOffset, *Group)             {}
+
+type verifRectState = struct{}
+
+func (r *RectClip64) verifTick(string) {}
+func (r *RectClip64) verifResetTicks() {}
